@@ -343,16 +343,19 @@ class Hist:
                 out = canon_obj(o)
             else:
                 v = int(toks[2])
-                if isinstance(o, bitarray):
-                    if op == "setall":
-                        o.setall(v)
-                    elif v < len(o):
-                        o.invert(v)
-                elif op == "setall":
-                    o.fill(v)
-                elif v < o.size:
-                    o[v // o.shape[1]][v % o.shape[1]] ^= 1
                 out = "ok"
+                try:
+                    if isinstance(o, bitarray):
+                        if op == "setall":
+                            o.setall(v)
+                        elif v < len(o):
+                            o.invert(v)
+                    elif op == "setall":
+                        o.fill(v)
+                    elif v < o.size:
+                        o[v // o.shape[1]][v % o.shape[1]] ^= 1
+                except Exception:  # noqa  (an object of an unexpected kind was handed out; reported by the call that returned it)
+                    out = "ERR cannot-overwrite"
                 self._touched(o)
         else:
             objs = [self._arg(toks[p]) for p in CALL_OPS[op]]
@@ -416,8 +419,6 @@ def property_checks(H, cls, patterns, limit=3):
             continue
         seen.add((m, c))
         if c.startswith("ERR") or len(c) != 196:
-            if len(c) != 196 or not c.startswith("ERR"):
-                pass
             bad.append(("encode", i, m, (), "encode of a 96-bit message does not return 196 bits", "196 bits", c[:40]))
             continue
         d0 = call(cls.deinterleave_data_bits, bitarray(c), False)
@@ -483,28 +484,34 @@ class Rel:
             self.c = "0" * 196
 
     def deint(self, w):
-        return "".join(w[self.il[k]] for k in range(196))
-
-    def inter(self, d):
-        w = ["0"] * 196
+        """the 196 "deinterleaved" bits of an on-air word as the library itself produces and accepts them
+        (deinterleave_all_bits, taken from the new copy of the class; encode / fill_encoding_table undo it)"""
+        d = call(self.F.deinterleave_all_bits, bitarray(w))
+        if len(d) == 196 and not d.startswith("ERR"):
+            return d
+        d = ["0"] * 196
         for k in range(196):
-            w[self.il[k]] = d[k]
+            d[self.il[k]] = w[k]
+        return "".join(d)
+
+    def cells(self, m, r):
+        """on-air word whose info cells hold m and whose reserved cells hold r; every FEC bit 0"""
+        w = ["0"] * 196
+        for k, b in zip(self.res_keys, r):
+            w[self.il[k]] = b
+        for k, b in zip(self.info_keys, m):
+            w[self.il[k]] = b
         return "".join(w)
 
     def embed(self, m, r):
         """196 deinterleaved bits: info bits m, reserved bits r, every FEC bit 0"""
-        d = ["0"] * 196
-        for k, b in zip(self.res_keys, r):
-            d[k] = b
-        for k, b in zip(self.info_keys, m):
-            d[k] = b
-        return "".join(d)
+        return self.deint(self.cells(m, r))
 
     def block(self, m, r):
         """on-air product code word of a block with info bits m and reserved bits r"""
         w = call(self.F.encode, bitarray(self.embed(m, r)))
         if len(w) != 196 or w.startswith("ERR"):
-            return self.inter(self.embed(m, r))
+            return self.cells(m, r)
         w = list(w)
         for k, b in zip(self.res_keys, r):
             w[self.il[k]] = b
@@ -526,6 +533,11 @@ class Rel:
         if k < 0.85:
             return "0" * 8 + m[8:]
         return rand_bits(rng, 96)
+
+    def parity_errors(self):
+        """1-2 inverted positions outside the 96 info cells: the received info bits stay those of the message"""
+        info = {self.il[k] for k in self.info_keys}
+        return tuple(sorted(self.rng.sample([p for p in range(196) if p not in info], self.rng.choice((1, 2, 2)))))
 
     def errors(self, wmax=2):
         rng = self.rng
@@ -572,7 +584,7 @@ class Rel:
             return self.c
         return rand_bits(rng, 196)
 
-    AIR = ("cw+e", "cw+e", "cw", "block-R", "block-R+e", "block-R-other", "cw+3", "random")
+    AIR = ("cw+e", "cw+e", "cw+parity-e", "cw", "block-R", "block-R+e", "block-R-other", "cw+3", "random")
 
     def air(self, name):
         """(received word, message the property promises for the decoder with repair or None)"""
@@ -581,6 +593,8 @@ class Rel:
             return self.c, self.m
         if name == "cw+e":
             return flip(self.c, self.errors()), self.m
+        if name == "cw+parity-e":
+            return flip(self.c, self.parity_errors()), self.m
         if name == "cw+3":
             return flip(self.c, rng.sample(range(196), rng.choice((3, 4)))), None
         if name == "block-R":
@@ -628,7 +642,9 @@ def primes(rel, rng):
     for op in ("repair", "data 1", "data 0", "deint"):
         for name in ("block-R", "block-R+e"):
             P.append((f"{op}:{name}", lambda b, op=op, name=name: b.call(*op.split(" "), lit(rel.air(name)[0]))))
-    P.append(("data 1:cw+e", lambda b: b.call("data", 1, lit(rel.air("cw+e")[0]))))
+    for op in ("repair", "data 1"):
+        for name in ("cw+e", "cw+parity-e"):
+            P.append((f"{op}:{name}", lambda b, op=op, name=name: b.call(*op.split(" "), lit(rel.air(name)[0]))))
 
     def fill_with(b, x, tamper=None):
         t = b.call("make")
@@ -679,6 +695,13 @@ def probes(rel, rng):
         b.call("data", 1, lit(w), "?=" + want)
         b.call("data", 0, lit(c), "?=" + m)
 
+    def same_info(b):
+        for _ in range(2):
+            b.call("data", 1, lit(rel.air("cw+parity-e")[0]), "?=" + m)
+        b.call("repair", lit(rel.air("cw+parity-e")[0]))
+        b.call("data", 1, lit(rel.air("cw+e")[0]), "?=" + m)
+        b.call("repair", lit(c), "?=" + c)
+
     def repair(b):
         b.call("repair", lit(c), "?=" + c)
         b.call("data", 1, lit(flip(c, rel.errors(1))), "?=" + m)
@@ -702,6 +725,7 @@ def probes(rel, rng):
         ("encode-96-little-endian", lambda b: b.call("encode", lit(m, True))),
         ("encode-96-twice", lambda b: (b.call("encode", lit(m)), b.call("encode", lit(m)))),
         ("decode", decode),
+        ("decode-same-info-bits", same_info),
         ("repair", repair),
         ("encode-keep-flip-decode", kept),
         ("make-fill-encode", table),
@@ -837,7 +861,7 @@ class Histories:
                 info_keys.append(k)
         self.tabs = (il, info_keys, res_keys)
         self.lines = []
-        self.shrinks = 0
+        self.pending = []
 
     def rel(self, m):
         return Rel(m, self.ctx.rng, self.tabs, self.by_rc)
@@ -876,38 +900,44 @@ class Histories:
         self.lines.append(("bh.reset", "ok"))
         self.lines += H.lines
         n = 0
-        for kind, i, what, exp, act in H.bad:
-            if n < 3:
-                self.report(kind, steps[: i + 1], what, exp, act)
-            n += 1
         for kind, i, m, e, what, exp, act in pbad:
             if n < 3:
-                self.report(kind, steps[: i + 1], what, exp, act, m, e)
+                self.pending.append((0, kind, steps[: i + 1], what, exp, act, m, e))
+            n += 1
+        for kind, i, what, exp, act in H.bad:
+            if n < 3:
+                prio = 0 if kind in ("not-corrected", "round-trip", "repair-alters-codeword", "encode") else \
+                    1 if kind == "history-dependent-result" and steps[i][0] in ("encode", "data", "repair") else 2
+                self.pending.append((prio, kind, steps[: i + 1], what, exp, act, None, None))
             n += 1
 
-    def report(self, kind, steps, what, exp, act, m=None, e=None):
+    def emit(self):
+        """report what the histories found, failures of the property as stated first; the first few are reduced
+        to a short history that fails on a new copy of the class (so that the replay, a new process, fails too)"""
         ctx = self.ctx
+        self.pending.sort(key=lambda r: r[0])
+        for n, (_, kind, steps, what, exp, act, m, e) in enumerate(self.pending):
 
-        def fails(cand):
-            C = fresh_class()
-            if C is None:
-                return False
-            if m is None:
-                return any(b[0] == kind for b in Hist(C, fresh_class).run(cand).bad)
-            H2 = Hist(C, None).run(cand)
-            return any(b[0] == kind and b[2] == m for b in property_checks(H2, C, [e] if e else [], limit=99))
+            def fails(cand):
+                C = fresh_class()
+                if C is None:
+                    return False
+                if m is None:
+                    return any(b[0] == kind for b in Hist(C, fresh_class).run(cand).bad)
+                H2 = Hist(C, None).run(cand)
+                return any(b[0] == kind and b[2] == m for b in property_checks(H2, C, [e] if e else [], limit=99))
 
-        inp = {"history": steps_str(steps)}
-        if self.shrinks < 6:
-            self.shrinks += 1
-            if fails(steps):
-                inp = {"history": steps_str(shrink_history(steps, fails)), "fails_on_a_new_copy_of_the_class": True}
-            else:
-                inp["fails_on_a_new_copy_of_the_class"] = False
-        if m is not None:
-            inp["message"] = m
-            inp["error_positions"] = list(e)
-        ctx.fail(kind, inp, what + " (after the calls of the history)", expected=exp, actual=act)
+            inp = {"history": steps_str(steps)}
+            if n < 6:
+                if fails(steps):
+                    inp = {"history": steps_str(shrink_history(steps, fails)), "fails_on_a_new_copy_of_the_class": True}
+                else:
+                    inp["fails_on_a_new_copy_of_the_class"] = False
+            if m is not None:
+                inp["message"] = m
+                inp["error_positions"] = list(e)
+            ctx.fail(kind, inp, what + " (after the calls of the history)", expected=exp, actual=act)
+        self.pending = []
 
     def flush(self):
         ctx = self.ctx
@@ -918,7 +948,7 @@ class Histories:
 
 def run_histories(ctx, R, by_rc):
     rng = ctx.rng
-    boost = min(ctx.boost, 4)
+    boost = min(ctx.boost, 2)  # the class is small: a changed source is searched twice as long, not 4-8 times
     Hs = Histories(ctx, R, by_rc)
     # ---- every (what happened before) x (call under observation), each with a message of its own
     sweeps = (1 if not ctx.thorough() else 6) * boost
@@ -934,7 +964,7 @@ def run_histories(ctx, R, by_rc):
                 probes(rel, rng)[iq][1](b)
                 ctx.count(f"hist:message:{shape}")
                 ctx.count(f"hist:before:{np_.split(':')[0]}")
-                Hs.run(b.steps, rel, "pairwise", sample=(s == 0 and (ip, iq) in ((0, 0), (11, 5))))
+                Hs.run(b.steps, rel, "pairwise", sample=(s == 0 and (ip, iq) in ((0, 0), (11, 6))))
         Hs.flush()
     # ---- random interleavings
     n_rand = (500 if not ctx.thorough() else 6000) * boost
@@ -949,6 +979,7 @@ def run_histories(ctx, R, by_rc):
         if i % 200 == 199:
             Hs.flush()
     Hs.flush()
+    Hs.emit()
 
 
 def run(ctx):
@@ -957,16 +988,31 @@ def run(ctx):
         "inverted on-air positions of weight 0..4 drawn from the structural classes of the 13x15 table (clean, single, "
         "pair in one row / one column / parity-on-parity corner / with R(3) / random, triple, quadruple); corpus = the 616 "
         "pairs that failed before fix 23ad248; thorough additionally enumerates all 19,307 patterns of weight <= 2 on "
-        "several random code words.  A case is (message, pattern); all are non-trivial; distinct = distinct pair."
+        "several random code words.  A case is (message, pattern); all are non-trivial; distinct = distinct pair.  "
+        "Histories of calls (one long-lived class object for the whole run): every pair (what was called before: encode of "
+        "196-bit inputs sharing the integer value / prefix / suffix / info bits with the message, blocks with non-zero "
+        "reserved bits through encode / repair / decode / deinterleave / fill, tables and results the caller overwrote, "
+        "wrong lengths, little-endian containers) x (call under observation: encode, encode twice, decode, repair, "
+        "encode-keep-flip-decode, make-fill-encode), each with a message of its own (random, leading / trailing zeros, low "
+        "weight, all-zero, all-one), plus random interleavings of all entry points (4-14 steps) with kept objects passed "
+        "again, overwritten and calls repeated.  Every call is compared with the same call made first on a new copy of the "
+        "class and with the stateful model; arguments and kept objects are re-read after every step; every code word "
+        "handed out for a 96-bit message is decoded afterwards (clean, repair, 4 error patterns of weight <= 2).  A case is "
+        "one history."
     )
     ctx.trusted_base += [
         "Lean 4.33 kernel",
         "tools/extract_bptc.py (INTERLEAVING_INDICES and the four derived maps of BPTC19696, in dict order) and tools/extract.py (Hamming matrices)",
         "hand-written model Model/Bptc.lean (loops as scatter/gather over the extracted tables, row/column passes as maps calling Code.correct) tied to the code by this run's correspondence on encode / deinterleave_data_bits / repair_if_necessary",
         "numpy / bitarray are trusted as the substrate of the implementation",
+        "Model/BptcHist.lean (objects handed out so far, calls as history-free functions of their arguments, fill_encoding_table "
+        "on the table it is given) tied to the code by this run's correspondence on histories (bh.* lines)",
+        "the 'first call' reference of the history probes is the module source executed again in a module object of its own "
+        "(state kept in the Hamming classes or other modules would be shared with it; the model comparison does not depend on it)",
     ]
     ctx.assumptions += [
-        "inputs are big-endian bitarrays; messages have 96 bits, received words 196 bits (other lengths: both sides raise/return AssertionError, compared)",
+        "inputs are bitarrays (big-endian containers; little-endian containers with the same bit sequence in the history probes: the entry points index the bits, so the model ignores the container's bit order); messages have 96 bits, received words 196 bits (other lengths: both sides raise/return AssertionError, compared)",
+        "make_encoding_table / fill_encoding_table are exercised with 13x15 integer tables holding 0/1 only",
         "repair_if_necessary is modelled for deinterleaved=False only (the library never passes True)",
     ]
     rng = ctx.rng
@@ -1031,6 +1077,9 @@ def run(ctx):
             R.check(m, e, tag)
     R.flush()
 
+    # ---------------- histories of calls: every entry point, related inputs of both accepted lengths, kept objects
+    run_histories(ctx, R, by_rc)
+
     # ---------------- argument validation and the 196-bit branch of encode (model must reject what the code rejects)
     if not ctx.search_only and ctx.driver_ok:
         pairs = []
@@ -1067,6 +1116,41 @@ def run(ctx):
         ctx.notes.append(f"all {len(allpat)} error patterns of weight <= 2 on {n_words} random code words")
 
 
+def replay_history(inp, f):
+    """re-run a history on the real class (this process has not called it before), then the recorded check"""
+    B = bptc()
+    steps = steps_parse(inp["history"])
+    H = Hist(B, fresh_class).run(steps)
+    model = {}
+    try:
+        lines = ["bh.reset"] + [l for l, _ in H.lines]
+        rc, out, _ = sh([BIN + "/drv_c02"], input="\n".join(lines) + "\n", timeout=120)
+        model = dict(enumerate(out.split("\n")[1:]))
+    except Exception as e:  # noqa
+        print("model driver not available:", e)
+    for i, (st, (_, out)) in enumerate(zip(steps, H.lines)):
+        print(f"step {i:2d}  {' '.join(st)[:150]}")
+        print(f"         implementation -> {out}")
+        if i in model:
+            print(f"         model          -> {model[i]}" + ("" if model[i] == out else "      <-- differs"))
+    bad = [(k, i, w, e, a) for k, i, w, e, a in H.bad]
+    if "message" in inp:
+        e = tuple(inp.get("error_positions") or ())
+        for k, i, m, pe, w, ex, ac in property_checks(H, B, [e] if e else [], limit=99):
+            if m == inp["message"]:
+                bad.append((k, i, f"{w}; message {m}, inverted on-air positions {list(pe)}", ex, ac))
+    for k, i, w, ex, ac in bad:
+        print(f"FAILS [{k}] at step {i}: {w}")
+        print(f"         expected {ex}")
+        print(f"         actual   {ac}")
+    if not bad:
+        print("the history does not fail in this process")
+    print("recorded:", f.get("what"))
+    print("expected:", f.get("expected"))
+    print("actual:  ", f.get("actual"))
+    return 1 if bad else 0
+
+
 def replay(obj):
     f = obj.get("failure") or {}
     inp = f.get("input", {})
@@ -1078,6 +1162,8 @@ def replay(obj):
         print("implementation encode(a) xor encode(b) =", xor_str(ca, cb) if not (ca.startswith("ERR") or cb.startswith("ERR")) else (ca, cb))
         print("implementation encode(a xor b)         =", cab)
         return 1 if (ca.startswith("ERR") or cb.startswith("ERR") or cab.startswith("ERR") or xor_str(ca, cb) != cab) else 0
+    if "history" in inp:
+        return replay_history(inp, f)
     if "message" not in inp:
         print("nothing to replay: no failing input was recorded (see no_longer_checks / correspondence_differences)")
         for d in (obj.get("correspondence_differences") or [])[:5]:
